@@ -191,3 +191,6 @@ func VerifWaitFlushed(db *DB) {
 		time.Sleep(200 * time.Microsecond)
 	}
 }
+
+// VerifWithMergeBit marks e as a merge-operator operand (what MergeOperator.Add writes).
+func VerifWithMergeBit(e *Entry) *Entry { return e.withMergeBit() }
